@@ -1,4 +1,5 @@
 import Nsl.Model.VM
+import Nsl.Model.WF
 /-!
 # The two IR optimisations (mirror of `OptimizeConstantCasts.py`, `OptimizeLoadAfterStore.py` and of the deferred
 `Replace` / `ReplaceUses` bookkeeping of `LinearIR.BasicBlock._Traverse`)
@@ -100,6 +101,42 @@ def forwardOK : Option Instr → List Instr → Bool
     (match ins, prev with
      | .load _ ty sc var, some (.store sc' var' _) => if var' = var then (sc' == sc && !ty.isAggregate) else true
      | _, _ => true) && forwardOK (some ins) rest
+
+/-- Value references are block-local: every reference an instruction reads is defined by an EARLIER instruction of
+the SAME basic block (a block starts at a label marker), and no reference is defined twice in a block.
+`seen` = the references defined so far in the current block. -/
+def blockLocal : List Nat → List Instr → Bool
+  | _, [] => true
+  | seen, ins :: rest =>
+    match ins with
+    | .label _ => blockLocal [] rest
+    | _ =>
+      (WF.usesOf ins).all (fun r => seen.contains r) &&
+      (match WF.defOf ins with
+       | some d => !seen.contains d && blockLocal (d :: seen) rest
+       | none => blockLocal seen rest)
+
+/-! ## Additional side conditions for the global simulation theorem (C02) -/
+
+/-- no element occurs twice -/
+def distinct : List Nat → Bool
+  | [] => true
+  | x :: xs => !xs.contains x && distinct xs
+
+/-- Every value reference is defined by at most one instruction of the function (references are numbered
+consecutively per function in the implementation). -/
+def defsDistinct (code : List Instr) : Bool := distinct (code.filterMap WF.defOf)
+
+/-- One pass, as a function / program transformer. -/
+def passFn (decide : Option Instr → Instr → Subst → Option (Nat × Opd)) (f : Func) : Func :=
+  { f with code := pass decide f.code }
+
+def passProgram (decide : Option Instr → Instr → Subst → Option (Nat × Opd)) (P : Program) : Program :=
+  { P with funcs := P.funcs.map (passFn decide) }
+
+/-- The decidable side conditions of the global simulation theorem, checked by the harness on every real IR. -/
+def optOK (f : Func) : Bool :=
+  blockLocal [] f.code && forwardOK none (pass ccDecide f.code) && defsDistinct f.code
 
 end Opt
 end Nsl
